@@ -11,6 +11,7 @@ RULE = (
     "answering with absent, empty or non-empty data sets; non-trivial = at least one message with an empty or absent optional "
     "data set crossed the wire; distinct = distinct (operation, request data-set kind, response data-set kind) combinations "
     "x segmentation/max-PDU configuration (inputs dominate: schedule diversity adds nothing to this property)"
+    " C-STORE is sent from memory and, in chunked mode, straight from a DICOM file - including a file that holds only the preamble and File Meta (empty data set)."
 )
 ASSUMPTIONS = ["fault-free network", "inputs dominate; the simulator supplies the deterministic two-party execution"]
 
